@@ -241,7 +241,7 @@ func (p *parser) typeText(stops ...string) string {
 
 // builtins whose arguments at the given positions are Go types, not expressions
 var typeArgPositions = map[string]map[int]bool{
-	"alloc": {0: true}, "made": {0: true}, "framed": {0: true}, "isType": {1: true}, "implements": {1: true}, "box": {1: true},
+	"alloc": {0: true}, "made": {0: true}, "framed": {0: true}, "zeroArr": {0: true}, "isType": {1: true}, "implements": {1: true}, "box": {1: true},
 	"conv": {1: true, 2: true}, "emptyset": {0: true},
 }
 
@@ -453,6 +453,7 @@ func parseStmts(src string) (out []Stmt, err error) {
 // ---------------------------------------------------------------- contracts
 
 type Clause struct {
+	Lemma string // non-empty: justified by a lemma over contracts (assumed by callers, not checked on the body)
 	Tags []string // empty = core
 	E    Expr
 	Src  string
@@ -510,6 +511,7 @@ type Contract struct {
 	AssignTags []string
 	HasAssigns bool
 	MayPanic bool
+	GuardedCells [][2]string
 	NoReturn bool
 	Pure     bool
 	Trusted  bool   // contract assumed, body not verified (stated in evidence)
@@ -542,7 +544,7 @@ type SpecFile struct {
 var clauseKeywords = map[string]bool{
 	"func": true, "requires": true, "ensures": true, "ghost": true, "on": true, "effect": true,
 	"loop": true, "assigns": true, "havoc": true, "may-panic": true, "pure": true, "spec": true,
-	"abstract": true, "guarded": true, "no-return": true, "freevars": true, "trusted": true, "axiom": true,
+	"abstract": true, "guarded": true, "no-return": true, "ensures-by": true, "guarded-cell": true, "freevars": true, "trusted": true, "axiom": true,
 }
 
 // parseTags parses a leading "[C01,C02]" and returns the rest.
@@ -761,6 +763,16 @@ func parseSpecFile(path string) (*SpecFile, error) {
 				if err := mk(&cur.Ensures, r.text, r.line); err != nil {
 					return nil, err
 				}
+			case "ensures-by":
+				rule = nil
+				f := strings.Fields(r.text)
+				if len(f) < 2 {
+					return nil, fail("ensures-by needs a lemma name")
+				}
+				if err := mk(&cur.Ensures, strings.TrimSpace(r.text[len(f[0]):]), r.line); err != nil {
+					return nil, err
+				}
+				cur.Ensures[len(cur.Ensures)-1].Lemma = f[0]
 			case "effect":
 				if rule == nil {
 					return nil, fail("effect outside an on-call rule")
@@ -883,6 +895,13 @@ func parseSpecFile(path string) (*SpecFile, error) {
 					}
 					cur.Assigns = append(cur.Assigns, e)
 				}
+			case "guarded-cell":
+				// guarded-cell <captured variable> by <captured mutex>
+				f := strings.Fields(r.text)
+				if len(f) != 3 || f[1] != "by" {
+					return nil, fail("bad guarded-cell clause")
+				}
+				cur.GuardedCells = append(cur.GuardedCells, [2]string{f[0], f[2]})
 			case "may-panic":
 				cur.MayPanic = true
 			case "no-return":
